@@ -232,6 +232,14 @@ def hyp_run(
         if bad:
             if state['first_fail'] is None:
                 state['first_fail'] = time.monotonic()
+                dump = os.environ.get('VF_DUMP_FIRST_FAIL')
+                if dump:      # development aid: the case before shrinking
+                    os.makedirs(dump, exist_ok=True)
+                    with open(os.path.join(
+                            dump, f'{ctx.prop_id}-s{ctx.shard}.json'), 'w') as f:
+                        json.dump({'property': ctx.prop_id, 'sig': bad[0].sig,
+                                   'detail': bad[0].detail, 'case': case,
+                                   'n_before': col.evaluations}, f)
             col._seen_fail[h] = bad[0]
             state['last'] = (bad[0], case)
             raise PropertyViolated(bad[0], case)
